@@ -766,13 +766,17 @@ class _ServiceBrowserBase(RecordUpdateListener):
 
     async def _async_start_query_sender(self) -> None:
         """Start scheduling queries."""
-        if not self.zc.started:
+        while not self.zc.started:
             try:
                 await self.zc.async_wait_for_start()
             except NotRunningException:
-                # The instance was closed before it had started, there is
-                # nothing to ask and nobody awaits this task
-                return
+                if self.zc.done or self.done:
+                    # The instance was closed before it had started, there is
+                    # nothing to ask and nobody awaits this task
+                    return
+                # The wait timed out while the instance is still starting
+                # (a blocked event loop), the browser must not stay silent
+                # forever because of that
         self.query_scheduler.start(self._loop)
 
 
